@@ -136,7 +136,7 @@ func (w *c04World) Setup(s *dsim.Sim) {
 		w.dirs = append(w.dirs, d)
 	}
 	arm := []int{0, 40, 100}[t.Draw(3, "arm-pct")]
-	s.ArmFraction(arm, []string{"bl:bifrost/transport/controller/transport-handler.go", "bl:bifrost/transport/controller/establish-link.go", "bl:bifrost/transport/controller/controller.go"})
+	s.ArmFraction(arm, []string{"bl:bifrost/transport/controller/transport-handler.go", "bl:bifrost/transport/controller/establish-link.go", "bl:bifrost/transport/controller/controller.go", "go:transport/controller/"})
 	if t.Bool(1, 2, "holder-park") {
 		// a reader parked while holding the controller lock makes the TryHoldLock pre-check
 		// of the directive handler fail (the source filter must then be applied later)
